@@ -9,7 +9,7 @@ from ..util import Info, Raised, expect, expect_eq, impl
 ID = "C11"
 ATHERIS = True  # thorough tier: coverage-guided second engine over the same strategy/run_case
 LEVEL = "exploration"
-BUDGET = {"quick": 24000, "thorough": 1000000}
+BUDGET = {"quick": 24000, "thorough": 2000000}
 RULE = (
     "case = sequence of calls on a fresh fog: explore(p, segs) with p = i-th unexplored "
     "prefix or an arbitrary (possibly unknown) prefix and segs shaped as leaf [], "
